@@ -287,7 +287,7 @@ def gen_exact_cases(chk):
     rng = random.Random(chk.seed * 7919 + 10)
     big = chk.tier == 'thorough'
     cases = []
-    nstep = 240 if big else 42
+    nstep = 600 if big else 42
     for k in range(nstep):
         c = gen_kernel_case(rng, k, chk.tier)
         c['op'] = 'step'
@@ -305,7 +305,7 @@ def gen_exact_cases(chk):
         c['lc'] = (c['lc'] + [F(1, 3)] * 6)[:npt] if k % 3 else [F(rng.randint(-9, 9), rng.choice([1, 2, 7])) for _ in range(npt)]
         c['vals'] = [[[F(rng.randint(-50, 50), rng.choice([1, 3, 4])) for _ in range(npt)] for _ in range(c['nq'])] for _ in range(c['nz'])]
         cases.append(c)
-    for k in range(60 if big else 12):
+    for k in range(150 if big else 12):
         c = gen_kernel_case(rng, k + 3000, chk.tier)
         c['op'] = 'method-step'
         nR, nV = rng.randint(1, 3), rng.randint(2, 4)
@@ -316,7 +316,7 @@ def gen_exact_cases(chk):
         c['tab_lc'] = [[t[2] for t in row] for row in tabs]
         c['rIdx'], c['cIdx'] = rng.randrange(nR), rng.randrange(nV)
         cases.append(c)
-    for k in range(40 if big else 10):
+    for k in range(100 if big else 10):
         c = {'op': 'method-pts', 'sp': ac.theta_space(rng, 'cu', 7), 'k': k + 4000, 'nq': rng.randint(7, 9), 'nz': rng.randint(7, 12)}
         c['dz'] = F(rng.randint(1, 9), rng.choice([2, 3, 5]))
         c['r'] = [F(rng.randint(1, 40), 3) for _ in range(rng.randint(1, 3))]
@@ -411,7 +411,7 @@ def gen_object_cases(chk):
     rng = random.Random(chk.seed * 104729 + 10)
     big = chk.tier == 'thorough'
     cases = []
-    for k in range(40 if big else 10):
+    for k in range(100 if big else 10):
         degq = 3 if k % 2 == 0 else rng.choice([2, 4, 5, 1])
         uni = [True, True, True, True]
         if k % 4 == 3:
@@ -682,11 +682,33 @@ def run():
 
 
 def replay(path):
+    """re-execute the recorded exact case against the current tree (cases are regenerated from seed and tier);
+    failures recorded on real objects (float link) are replayed by re-running the check with the same seed"""
     core.setup_paths()
-    body = json.load(open(path))
-    print(json.dumps({k: body[k] for k in ('property', 'key', 'what')}, indent=1))
-    print('re-run: VERIF_SEED=%s bin/check C10 --tier %s' % (body.get('seed'), body.get('tier')))
     import os
+    body = json.load(open(path))
+    print(json.dumps({k: body[k] for k in ('property', 'key', 'what')}, indent=1)[:2000])
     os.environ['VERIF_SEED'] = str(body.get('seed'))
     os.environ['VERIF_TIER'] = str(body.get('tier'))
+    rc = body.get('replay', {}).get('case', {}) if isinstance(body.get('replay'), dict) else {}
+    if isinstance(rc, dict) and 'k' in rc and 'op' in rc:
+        chk = core.Check('C10', 'proof')
+        chk.seed, chk.tier = int(body['seed']), body['tier']
+        hit = [c for c in gen_exact_cases(chk) if c['k'] == rc['k'] and c['op'] == rc['op']]
+        if hit:
+            c = hit[0]
+            r = exact_case(c)
+            m = core.model(model_lines(c))
+            print('implementation:', str(r['impl'])[:600])
+            print('model         :', str(m[0])[:600])
+            print('failed direct oracles:', r['orc'])
+            impl = r['impl']
+            if isinstance(impl, str) and impl.startswith('ok') and m[0].startswith('ok'):
+                same = [None if t == '_' else qparse(t) for t in impl.replace(';', ' ').split()[1:]] == [None if t == '_' else qparse(t) for t in m[0].replace(';', ' ').split()[1:]]
+            else:
+                same = isinstance(impl, str) and impl.split(' ')[:2] == m[0].split(' ')[:2]
+            if isinstance(impl, list):
+                same = all(x.replace(' ', '') == y[2:].replace(' ', '') for x, y in zip(impl, m))
+            print('agree' if same and not r['orc'] else 'STILL FAILING')
+            return 0 if same and not r['orc'] else 1
     return run()
